@@ -443,9 +443,13 @@ class Registry:
                     key = self.ev(c.func.value.slice, env, module, scope_fi)
                     val = self.ev(c.args[0], env, module, scope_fi)
                     events.append(('register', reg, key, val))
+                elif self._delegated(c, env, module, scope_fi, events, site):
+                    pass
                 else:
                     raise AnalysisError(f'{scope_fi.fq}: unsupported call in decorator: {ast.unparse(st)[:60]}')
             elif isinstance(st, ast.Return):
+                if isinstance(st.value, ast.Call):
+                    self._delegated(st.value, env, module, scope_fi, events, site)
                 return
             elif isinstance(st, (ast.Assert, ast.Pass)):
                 pass
@@ -453,6 +457,26 @@ class Registry:
                 pass
             else:
                 raise AnalysisError(f'{scope_fi.fq}: unsupported statement in decorator: {ast.unparse(st)[:60]}')
+
+    def _delegated(self, c, env, module, scope_fi, events, site):
+        """`other_decorator(target)` / `factory(args)(target)` inside a decorator: apply that decorator in turn."""
+        if len(c.args) != 1 or c.keywords:
+            return False
+        app = None
+        if isinstance(c.func, ast.Name) and isinstance(env.get(c.func.id), tuple) and env[c.func.id][:1] == ('factory-app',):
+            app = env[c.func.id][1:]
+        elif isinstance(c.func, ast.Call):
+            fac = self._factory_for(module, c.func.func, env)
+            if fac is not None:
+                app = (fac[0], fac[1], [self.ev(a, env, module, scope_fi) for a in c.func.args],
+                       {k.arg: self.ev(k.value, env, module, scope_fi) for k in c.func.keywords})
+        if app is None:
+            return False
+        f2, pre2, a2, k2 = app
+        target = self.ev(c.args[0], env, module, scope_fi)
+        sub = self.apply_factory(f2, a2, k2, target, site, module, pre2)
+        events.extend(sub)
+        return True
 
     # ------------------------------------------------------------------ reading class instances
     def class_attr(self, inst, name):
@@ -801,6 +825,13 @@ class Registry:
                     raise AnalysisError(f'{factory.fq}: unsupported factory return')
             elif isinstance(st, ast.Expr) and isinstance(st.value, ast.Constant):
                 pass
+            elif isinstance(st, ast.Assign) and len(st.targets) == 1 and isinstance(st.targets[0], ast.Name) \
+                    and isinstance(st.value, ast.Call) and self._factory_for(factory.module, st.value.func, env) is not None:
+                # a decorator obtained from another factory of the package: applied by the inner function
+                f2, pre2 = self._factory_for(factory.module, st.value.func, env)
+                a2 = [self.ev(a, env, factory.module, factory) for a in st.value.args]
+                k2 = {k.arg: self.ev(k.value, env, factory.module, factory) for k in st.value.keywords}
+                env[st.targets[0].id] = ('factory-app', f2, pre2, a2, k2)
             else:
                 raise AnalysisError(f'{factory.fq}: unsupported statement in decorator factory: {ast.unparse(st)[:60]}')
         if inner is None:
